@@ -17,4 +17,16 @@ PROPS = {
     ),
 }
 
+PROPS["C16"] = dict(
+    technique="Coq proof that the uint64 bitmap window (N model with explicit mod 2^64) refines a set-based window, by invariant + induction over delivery sequences; vm_compute correspondence on replayWindow via a hook",
+    level_text="Theorems over every configured size and every delivery sequence (at most once, accept rule, window bounds, refinement of "
+               "the set-based window) proved in Coq on a bit-faithful model of replayWindow.check; the model and an independent "
+               "property-level scan are evaluated in Coq on decision sequences produced by the Go window.",
+    level_note="Trusted: Coq kernel + vm_compute; hand-written model tied by correspondence; authenticity (INT-CTXT of SM4-GCM / "
+               "HMAC-SM3+CBC) is an assumption of the connection-level statements.",
+    code_names={1: "sequence-number-accepted-twice", 2: "in-window-first-arrival-refused"},
+    assumptions=["sequence numbers are < 2^48 (header field width), so the unbounded-N model has no wrap the code lacks"],
+    trusted=["verif hook VerifNewReplayWindow / Check (dtlcp)"],
+)
+
 NOT_YET = {}
